@@ -37,7 +37,7 @@ T_C02 == ~R.overlap
 T_C04 == /\ P!Lifecycle(Log)
          /\ \A a \in SetOf(R.spret) : (\E i \in 1..Len(Log) : Log[i].a = a /\ Log[i].kind = "Started") \/ ~Reg[a]
 T_C05 == /\ P!AtMostOnce(Log) /\ P!InOrder(Log) /\ P!RestartsNumbered(Events) /\ R.witness
-         /\ R.quiet => \A a \in Actors : Reg[a] => \A k \in Accepted[a] : P!Handled(Log, a, k)
+         /\ R.quiet => \A a \in Actors : (Reg[a] /\ P!NotStopping(Issued, Events, a)) => \A k \in Accepted[a] : P!Handled(Log, a, k)
 T_C06 == /\ P!RestartsBounded(Events) /\ R.witness
          /\ R.quiet => \A a \in Actors : P!Exhausted(Events, a) => (~Reg[a] /\ \A d \in P!Desc(a) : ~Reg[d])
 T_C07 == /\ P!KindsKnown(Log)
